@@ -1,7 +1,7 @@
 # Run table and MANIFEST text for C07.
 SPEC = dict(
     level="exploration",
-    rule="a generated committed log (5-80 entries, write commands of the KV / hash / list / set / zset / bitmap / HyperLogLog / JSON families incl. every EXPIRE / PERSIST variant over a small colliding key pool; log timestamps adversarially spaced: equal (when no known finding forbids it), +1 ns, sub-second, across second boundaries, at / 1 ns / 1 s around expiry instants) is framed exactly as KVNode.ProposeInternal frames it and applied by the node's real applyEntries under TWO execution plans that differ in engine (mem / pebble / rocksdb), partition of the log into apply batches (singletons / random cuts / one batch), replay cut (prefix applied as 'replaying'), leader vs follower (waiters registered or not); "
+    rule="a generated committed log (5-80 entries, write commands of the KV / hash / list / set / zset / bitmap / HyperLogLog / JSON families incl. every EXPIRE / PERSIST variant over a small colliding key pool; log timestamps adversarially spaced: equal (when no known finding forbids it), +1 ns, sub-second, across second boundaries, at / 1 ns / 1 s around expiry instants) is framed exactly as KVNode.ProposeInternal frames it and applied by the node's real applyEntries under TWO execution plans that differ in engine (mem / pebble / rocksdb), partition of the log into apply batches (singletons / random cuts / one batch), replay cut (prefix applied as 'replaying'), leader vs follower (waiters registered or not), and whether the replica takes a checkpoint and restarts from it (engine reopened, every cache gone) after a drawn entry of the log; "
          "the reply recorded for every request id and a logical dump of the whole key pool through the read handlers (24 reads per key; TTLs within 2 s) must be equal. A THIRD execution applies the same log shifted by a whole number of seconds from 'every expiry long past' (T0-2000 s) to 'every expiry in the future' (T0+2*10^6 s) of the wall clock: every write reply must be the same (error class for errors). "
          "non-trivial = the log has two adjacent batchable writes on one key AND a read-modify-write on a key that carries an expiry AND the plans differ in >= 2 dimensions.",
     assumptions=[
@@ -13,10 +13,12 @@ SPEC = dict(
     quick=[
         dict(name="mem_pebble", pkg="c07_determinism", test="TestDeterminismMemPebble", checks=500, shards=6),
         dict(name="all_engines", pkg="c07_determinism", test="TestDeterminismAllEngines", checks=250, shards=4),
+        dict(name="known", pkg="c07_determinism", test="TestKnown.*", checks=1, shards=1),
     ],
     thorough=[
         dict(name="mem_pebble", pkg="c07_determinism", test="TestDeterminismMemPebble", checks=12000, shards=10),
         dict(name="all_engines", pkg="c07_determinism", test="TestDeterminismAllEngines", checks=6000, shards=6),
+        dict(name="known", pkg="c07_determinism", test="TestKnown.*", checks=1, shards=1),
     ],
 )
 TEXT = dict(
